@@ -63,6 +63,9 @@ func (s *rsScript) opConnect(id string) {
 			o.sei = []uint32{0, 30, 3600, 4294967295}[r.Intn(4)]
 		}
 	}
+	if o.ver == 5 && r.Intn(3) == 0 {
+		o.recvMax = uint16(1 + r.Intn(2))
+	}
 	if r.Intn(4) == 0 {
 		o.will = true
 		o.willRet = r.Intn(2) == 0
@@ -73,7 +76,7 @@ func (s *rsScript) opConnect(id string) {
 	if r.Intn(4) == 0 {
 		o.username = "u:" + id
 	}
-	s.note("connect id=%q v%d clean=%v sei=%d/%v will=%v/%d", o.id, o.ver, o.clean, o.sei, o.seiFlag, o.will, o.willDly)
+	s.note("connect id=%q v%d clean=%v sei=%d/%v will=%v/%d recvmax=%d", o.id, o.ver, o.clean, o.sei, o.seiFlag, o.will, o.willDly, o.recvMax)
 	s.b.connect(o)
 	s.nconn++
 }
@@ -141,6 +144,11 @@ func (s *rsScript) opPublish(c *rsClient) {
 // opAnswer lets a client answer one outstanding packet of the QoS flows.
 func (s *rsScript) opAnswer(c *rsClient) bool {
 	c.scan()
+	if s.rng.Intn(8) == 0 && (len(c.recs)+len(c.rels)+len(c.pubs) > 0) {
+		// fault: the broker's answer to what the client sends next cannot be written
+		s.note("writes to id=%q fail from now on", c.id)
+		c.conn.failWrites()
+	}
 	switch {
 	case len(c.recs) > 0:
 		id := c.recs[0]
@@ -344,6 +352,57 @@ var directed = []func(s *rsScript){
 		c := s.conn(rsConnect{id: strings.Repeat("k", 32766), ver: 4})
 		s.sub(c, "a/b", 1)
 	},
+	// faults: the broker's answer cannot be written (peer gone) when it answers a PUBREC with PUBREL ...
+	func(s *rsScript) {
+		c := s.conn(rsConnect{id: "f:1", ver: 5, sei: 3600, seiFlag: true})
+		s.sub(c, "a/b", 2)
+		p := s.conn(rsConnect{id: "p", ver: 4, clean: true})
+		s.pub(p, "a/b", "m2", 2, false, 0)
+		s.opAnswer(p) // PUBREL of the publisher
+		c.scan()
+		s.note("writes to f:1 fail; PUBREC")
+		c.conn.failWrites()
+		s.b.send(c, packets.Packet{FixedHeader: packets.FixedHeader{Type: packets.Pubrec}, PacketID: c.pubs[0].pid})
+	},
+	// ... a PUBREL with PUBCOMP ...
+	func(s *rsScript) {
+		p := s.conn(rsConnect{id: "f_2", ver: 5, sei: 3600, seiFlag: true})
+		s.pub(p, "a/b", "m2", 2, false, 0)
+		p.scan()
+		s.note("writes to f_2 fail; PUBREL")
+		p.conn.failWrites()
+		s.b.send(p, packets.Packet{FixedHeader: packets.FixedHeader{Type: packets.Pubrel, Qos: 1}, PacketID: p.recs[0]})
+	},
+	// ... a QoS 2 PUBLISH with PUBREC
+	func(s *rsScript) {
+		c := s.conn(rsConnect{id: "sub", ver: 4})
+		s.sub(c, "a/b", 1)
+		p := s.conn(rsConnect{id: "f/3", ver: 4})
+		s.note("writes to f/3 fail; PUBLISH qos 2")
+		p.conn.failWrites()
+		s.pub(p, "a/b", "m3", 2, true, 0)
+	},
+	// flow control: Receive Maximum 1 / 2, bursts of QoS 1 and 2 messages, nothing acknowledged;
+	// subscriber connected ...
+	func(s *rsScript) {
+		c := s.conn(rsConnect{id: "rm:1", ver: 5, sei: 3600, seiFlag: true, recvMax: 1})
+		s.sub(c, "a/+", 2)
+		p := s.conn(rsConnect{id: "p", ver: 5, clean: true})
+		for i, q := range []byte{1, 2, 1, 2, 1} {
+			s.pub(p, "a/b", fmt.Sprintf("b%d", i), q, false, 60)
+		}
+	},
+	// ... and offline
+	func(s *rsScript) {
+		c := s.conn(rsConnect{id: "rm_2", ver: 5, sei: 3600, seiFlag: true, recvMax: 2})
+		s.sub(c, "a/+", 1)
+		p := s.conn(rsConnect{id: "p", ver: 4, clean: true})
+		s.pub(p, "a/b", "b0", 1, false, 0)
+		s.drop(c)
+		for i, q := range []byte{1, 2, 1, 1} {
+			s.pub(p, "a/c", fmt.Sprintf("c%d", i), q, false, 0)
+		}
+	},
 	// Clean Start 1 over a live connection whose session has subscriptions and unacknowledged QoS 1 / 2
 	// outbound messages; the new session is persistent itself
 	func(s *rsScript) {
@@ -528,6 +587,7 @@ func engCrash(seed int64, tier string, _ []string, out *sx.Out) {
 					continue
 				}
 				evs, _ := b.rec.snapshotEvents()
+				snap1 := snapshot(b.srv)
 				snap2 := restartOn(env, loc)
 				if k == 0 {
 					out.Comment(fmt.Sprintf("history %d seed %d backend %s writes %d: %s", i, hseed, beNames[be], total, strings.Join(s.log, "; ")))
@@ -536,7 +596,7 @@ func engCrash(seed int64, tier string, _ []string, out *sx.Out) {
 				if ce < 0 {
 					ce = len(evs)
 				}
-				out.Case(sx.L{sx.N(be), sx.N(uint64(b.srv.Options.Capabilities.MaximumMessageExpiryInterval)), evs, sx.N(k), sx.N(ce), sx.N(b.rec.cutWrites), snap2})
+				out.Case(sx.L{sx.N(be), sx.N(uint64(b.srv.Options.Capabilities.MaximumMessageExpiryInterval)), evs, sx.N(k), sx.N(ce), sx.N(b.rec.cutWrites), snap1, snap2})
 				env.discard(loc)
 			}
 		}
